@@ -84,7 +84,7 @@ func methodParams(method string, cids []string, w map[string]float64, extra bool
 		if extra {
 			wm["undeclared"] = 0.5
 		}
-		return M{"weights": wm, "drawResolution": "allow"}
+		return M{"weights": wm, "drawResolution": "newer"} // non-default policy: must survive parameter rewriting
 	case "aspectEliminationHeuristic":
 		if extra {
 			wm["undeclared"] = 0.5
